@@ -168,14 +168,24 @@ def num_product(s):
 
 
 def arity_product(s):
-    """product of the numbers that can be arities: digit runs not inside parentheses"""
-    depth, out = 0, bytearray()
-    for ch in s:
-        if ch == 40:
-            depth += 1
-        elif ch == 41:
-            depth = max(0, depth - 1)
-        out.append(ch if depth == 0 else 32)
+    """upper bound of the product of the numbers that can be arities: digit runs outside attribute lists.  An attribute
+    list is recognised the way the parser does: "(" right after a number, inside "[...]" or at the very beginning, up to
+    the first ")"; anything else (an unclosed or misplaced parenthesis) hides nothing."""
+    out, i, n, inbr = bytearray(), 0, len(s), False
+    while i < n:
+        ch = s[i]
+        if ch == 91:
+            inbr = True
+        elif ch == 93:
+            inbr = False
+        if ch == 40 and (i == 0 or inbr or 48 <= s[i - 1] <= 57):
+            j = s.find(b")", i)
+            if j >= 0:
+                out += b" "
+                i = j + 1
+                continue
+        out.append(ch)
+        i += 1
     return num_product(bytes(out))
 
 
@@ -273,7 +283,7 @@ def hostile_behaviour(s):
         lines += ["load 1", "export 40 1 0:1 2:0 4:1 6:0 8:0 10:0 12:0 14:1 16:0"]
     elif est <= 700:
         lines += ["load 1"]
-    elif est <= 30000:
+    elif est <= 12000:
         lines += ["load 0"]          # looked at for crashes only: WellFormed on thousands of objects is too slow for TLC
     lines.append("end")
     return "\n".join(lines) + "\n"
@@ -392,6 +402,6 @@ def run(ctx, replay=None):
         assumptions=["default type filters (instruction caches and memory-side caches are not built)",
                      "level types appear in the conventional order Package, Die, L3, L2, L1, Core (hwloc orders identical objects by type, not by position)",
                      "the order convention of an explicit index list on NUMA nodes attached at several depths is not documented: only the set of indexes is demanded there",
-                     "hostile strings that may describe more than 30000 objects, or that contain a number above 10^6 (a 512 MB cpuset per object), are parsed but not loaded; between 700 and 30000 objects the load is only watched for crashes"],
+                     "hostile strings that may describe more than 12000 objects, or that contain a number above 10^6 (a 512 MB cpuset per object), are parsed but not loaded; between 700 and 12000 objects the load is only watched for crashes"],
         exhaustive=False,
         extra={"model_behaviours": n_model, "hostile_strings": len(hs), "descriptions": len(items), "features": features(items)})
